@@ -193,13 +193,13 @@ CHECKS = {
 
 # what the later rounds of seeded changes added to the conformance runs (appended to the texts above)
 _ADDED = {
- "C02": " A gauge handle kept from a closed and re-acquired sub-scope (updates through it promise nothing and must not surface under a live gauge); free-running: update then pass, repeatedly, while another goroutine keeps the scope's gauge lock busy inside a slow AllocateGauge.",
+ "C02": " A gauge handle kept from a closed and re-acquired sub-scope (updates through it promise nothing and must not surface under a live gauge); free-running: update then pass, repeatedly, while another goroutine keeps the scope's gauge lock busy inside a slow AllocateGauge; a report pass or root Close that starts while an earlier pass is still blocked inside the reporter's Flush, after one more Update.",
  "C03": " A duration reaches a value histogram also through a stopwatch started from it; specifications of 32 / 63 / 64 / 65 bounds.",
  "C04": " SubScope children are closed and retired by a pass, then their parents and siblings emit again (tags of a scope never change over its lifetime).",
  "C07": " A SubScope child of a tagged scope is closed and retired while its parent, a sibling and a later scope keep emitting; free-running: four goroutines close one sub-scope handle at the same moment, the root closes its sub-scopes concurrently.",
  "C08": " A Close while a periodic pass is between two metrics of the root; scopes derived after Close from a sub-scope handle obtained before it.",
  "C09": " A closed child re-acquired by two goroutines at once; first use of sanitized names; histograms created at the same moment in different scopes from specifications whose bucket-cache identities collide; free-running: the first metrics of a fresh sub-scope requested by six goroutines at once, concurrent Record on one timer, the root's own identity asked for again under a sanitizer.",
- "C11": " Derivations that lead back to the root's own identity; first use of fresh counter names by all recorders at the same moment.",
+ "C11": " Derivations that lead back to the root's own identity; first use of fresh counter names by all recorders at the same moment; several histograms of one tree with different bucket lists of the same length and sum; the empty metric name.",
  "C12": " Counters whose names run through a range of lengths so that one is charged exactly the free bytes of a packet; a first destination nobody listens on; IncludeHost and custom bucket tag names.",
  "C13": " Tag sets of 10 / 11 / 12 / 25 tags; plain handles shared by all goroutines and a hammer phase of 120 000 distinct values through one handle (duplicates counted per destination); a first destination nobody listens on.",
  "C15": " A destination that stops listening (sends are refused now and then, nothing arrives): the buffer is still empty after every Flush; a datagram that no Flush accounts for (e.g. sent by Close) is a violation.",
@@ -209,7 +209,7 @@ _ADDED = {
  "C18": " Bounds of a minute and more; one reporter used by several goroutines at once; a client that answers some calls with an error.",
  "C19": " A multi reporter among the children of a multi reporter; concurrent callers.",
  "C20": " A value set and a duration set with the same numbers under one root; a longer set created before its prefix when the extra bound contributes nothing to the cache identity; the buckets of a histogram are allocated in ascending order.",
- "C10": " The clock is stepped back between Start and Stop; typed-nil error values; with both reporters configured timers go through the cached handle.",
+ "C10": " The clock is stepped back between Start and Stop; typed-nil error values; with both reporters configured timers go through the cached handle; histories of several thousand values on one timer in every mode.",
  "C06": " A root without tags whose caller keeps dirtying the map it passed to Tagged.",
 }
 for _k, _v in _ADDED.items():
